@@ -11,4 +11,5 @@ cp /repo/Cargo.lock engines/kani/Cargo.lock
 cp /repo/Cargo.lock engines/tv/driver/Cargo.lock
 ( cd engines/tv/driver && CARGO_TARGET_DIR=../../../.build/tv cargo build --offline --release ) > .build/logs/setup_tv.log 2>&1 || { echo "tv driver build failed"; tail -20 .build/logs/setup_tv.log; exit 1; }
 python3-vt -c "import z3" || { echo "z3 python bindings missing"; exit 1; }
+./check selftest || { echo "translator self-test failed"; exit 1; }
 echo "setup ok"
